@@ -691,6 +691,20 @@ def _strip_elem(t):
     return "".join(out)
 
 
+def _is_take_one(name):
+    repo = _REPO[0]
+    if repo is None:
+        return False
+    fs = [f for f in repo.fns.values() if f.name == name and not f.self_ty]
+    if len(fs) != 1:
+        return False
+    f = fs[0]
+    ptys = ["".join((p.get("ty") or "").split()) for p in f.params]
+    ret = "".join((f.node.get("ret") or "").split())
+    return len(ptys) == 1 and ptys[0].startswith("&mut") and re.search(r"(Set|Vec|VecDeque|BTreeSet|Heap)<", ptys[0]) is not None and ret.startswith("Option<") \
+        and any(m["k"] == "MethodCall" and m["method"] in ("remove", "pop", "pop_front", "pop_back", "pop_first", "pop_last", "take", "swap_remove") for m in A.walk(f.body))
+
+
 def _leaf_atoms(t, kind):
     t = re.sub(r"\s*=> [^&|]*$", "", t.strip())
     t = _strip_elem(_strip(t))
@@ -718,6 +732,8 @@ def _leaf_atoms(t, kind):
             name = m.strip(".(")
             if name in ADAPTORS:
                 continue
+            if _is_take_one(name):
+                continue   # a helper `fn(&mut Set<T>) -> Option<T>` that takes one element out (`iter().next()` + `remove`): plumbing of a worklist loop
             toks.add(CLASS.get(name, name) + "()")
         elif re.match(r"<[A-Z]\w*>$", m):
             continue  # a local shown by its declared type: an annotation, not an origin
